@@ -16,8 +16,6 @@ func Operate3[A any, B any, C any, R any](ac <-chan A, bc <-chan B, cc <-chan C,
 	rc := make(chan R)
 
 	go func() {
-		defer close(rc)
-
 		for {
 			an, ok := <-ac
 			if !ok {
@@ -37,8 +35,12 @@ func Operate3[A any, B any, C any, R any](ac <-chan A, bc <-chan B, cc <-chan C,
 			rc <- o(an, bn, cn)
 		}
 
-		Drain(ac)
-		Drain(bc)
+		// Close the output before draining, and drain the inputs
+		// independently of each other, as they may share a source.
+		close(rc)
+
+		go Drain(ac)
+		go Drain(bc)
 		Drain(cc)
 	}()
 
